@@ -3,13 +3,13 @@ from checks import semcommon, c03
 from lib import vlib
 
 RULE = ("programs: every program of the closure / call (params x variadic x args x spread) / recursion (tail, non-tail, "
-        "statement position, in try, accumulator) / assignment-order / destructuring / const-iota / loop-control families of "
+        "statement position, in try, accumulator) / assignment-order / destructuring / const-iota / loop-control families and every sequence of 2 (quick: selected 3, thorough: all 3) feature episodes out of 14, each optionally one frame deeper, of "
         "tla/UgoSemFam.tla, expected outcome + side-effect log computed by the TLA+ reference semantics, run on the real compiler+VM "
         "with the optimizer on, off and at budget 1; per-instruction traces of the runs validated by UgoVMTrace.tla; "
         "non-trivial = every program (each exercises one documented rule)")
 
 def run(ctx):
-    semcommon.run_sem(ctx, "UgoSemFam_c02", ["default", "noopt", "limit1"], label="c02", sample_every=60)
+    semcommon.run_sem(ctx, "UgoSemFam_c02" if ctx.quick else "UgoSemFam_c02t", ["default", "noopt"] if ctx.quick else ["default", "noopt", "limit1"], label="c02", sample_every=200)
     ctx.exhaustive = True
     ctx.assumptions += ["renderer harness/cmd/vh/sem.go maps the AST to uGO source faithfully",
                         "UgoSem.tla is the documented meaning (docs/tutorial.md); values are small ints, strings, bools, arrays, maps, closures"]
